@@ -86,9 +86,15 @@ class MapFiller(Visitor):
         ]
         return sexpr
 
+    shadowed = ()
+
     def visit_NamedQubit(self, qubit):
         """Map this to a fundamental register and index and return it."""
         reg, index = qubit.resolve_qubit()
+        if reg.name in self.shadowed:
+            raise JaqalError(
+                f"Cannot fill in map aliases: register {reg.name} is hidden by a macro parameter of the same name"
+            )
         return reg[index]
 
     def visit_Register(self, reg):
@@ -113,7 +119,12 @@ class MapFiller(Visitor):
         qubits which have type NamedQubit, so they are easily differentiated
         (unlike at the Jaqal level where they are both text identifiers).
         """
-        gate_block = self.visit(macro.body)
+        # Inside the macro the name of a register may be taken by a parameter.
+        self.shadowed = {param.name for param in macro.parameters}
+        try:
+            gate_block = self.visit(macro.body)
+        finally:
+            self.shadowed = ()
         sexpr = [
             "macro",
             macro.name,
